@@ -161,6 +161,19 @@ def run(ctx):
         ctx.violations.append({'sig': sig, 'what': what,
                                'input': {'A': [[a.t() for a in r] for r in A], 'B': [[b.t() for b in r] for r in B] if B else None},
                                'observed': str(obs)[:400], 'expected': str(exp)[:400], 'oracle': 'exact Hamilton product (Python integers)'})
+    # one and the SAME object as both operands (squares, powers by repeated squaring): every storage form and the @ operator
+    for nsq in (2, 3, 4) if ctx.quick() else (2, 3, 4, 5, 7):
+        for rep in range(3):
+            Sq = qx.rand_int(ctx.rng, nsq, nsq, -3, 3) if rep else [[(Q(0, 1, 0, 0) if (i, j) == (0, 1) else (Q(0, 0, 1, 0) if (i, j) == (1, 0) else Q())) for j in range(nsq)] for i in range(nsq)]
+            want2 = qx.mm(Sq, Sq); Sd = qx.to_np(Sq); Ss = mk_sparse(utils, Sq)
+            def _dense(P):
+                if isinstance(P, np.ndarray): return qx.from_np(P)
+                return qx.from_np(quaternion.as_quat_array(np.stack([np.asarray(c.toarray(), dtype=float) for c in (P.real, P.i, P.j, P.k)], axis=-1)))
+            for nm, f in (('quat_matmat(dense, same object)', lambda: utils.quat_matmat(Sd, Sd)), ('quat_matmat(sparse, same object)', lambda: utils.quat_matmat(Ss, Ss)), ('sparse @ same object', lambda: Ss @ Ss)):
+                try: got = _dense(f())
+                except Exception as e: viol('C01:product:same-object:raises', f'{nm} raised {e!r}', Sq, Sq, repr(e), 'a product'); continue
+                if not qx.eq(got, want2): viol('C01:product:same-object', f'{nm}: the product of a matrix with itself (one object as both operands) differs from the Hamilton product', Sq, Sq, [[a.t() for a in r] for r in got], [[a.t() for a in r] for r in want2])
+            ctx.count(('same-object', nsq, rep, [a.t() for r in Sq for a in r]), True)
     for cls, A, B in cases:
         m, k = qx.shape(A); n = qx.shape(B)[1]
         want = qx.mm(A, B)
